@@ -164,16 +164,24 @@ def run_impl(rx, tx, psize, pval, frames, active):
     """returns (trace, error) ; trace: per frame [telegrams, callbacks, sent]"""
     m = make_machine(rx, tx, psize, pval, active)
     trace = []
+    handed_out = []  # (frame index, the object which was handed out, its content at that time)
     for i, (fid, d) in enumerate(frames):
         m.cbs = []
         if m._bus:
             m._bus.sent = []
         try:
-            ts = [[tid, list(t)] for tid, t in m.decode_rx_frame(fid, bytes(d))]
+            raw = list(m.decode_rx_frame(fid, bytes(d)))
+            ts = [[tid, list(t)] for tid, t in raw]
         except Exception as e:  # noqa
             return trace, (i, f"{type(e).__name__}: {e}")
+        handed_out.extend((i, t, bytes(t)) for _, t in raw)
         sent = [[a, list(p)] for a, p in m._bus.sent] if m._bus else []
         trace.append([ts, m.cbs, sent])
+    # a consumer which queues the telegrams looks at them later: they must still be what was reported
+    for i, t, snap in handed_out:
+        if bytes(t) != snap:
+            return trace, (i, f"the telegram {snap.hex()} reported for frame {i} was changed afterwards into {bytes(t).hex()} "
+                              "(the reassembler kept writing to the object it had handed out)")
     return trace, None
 
 
@@ -215,8 +223,9 @@ def run_impl_log(rx, frames, style_of, junk=None, eol="\n"):
     async def go():
         out = []
         async for tid, t in m.read_telegrams(io.StringIO(text)):
-            out.append([tid, list(t)])
-        return out
+            out.append((tid, t))
+        # (converted only after the whole log was read, like a consumer which queues the telegrams)
+        return [[tid, list(t)] for tid, t in out]
 
     err = io.StringIO()
     with contextlib.redirect_stderr(err):
